@@ -212,8 +212,8 @@ def main():
     print("osu-dst check property=%s tier=%s VERIF_SEED=%d workers=%d code=%s" % (prop, tier, base, workers, code))
     sys.stdout.flush()
     budget = float(os.environ.get("VERIF_BUDGET_S", "900" if tier == "thorough" else "0"))
-    n_quick = args.runs or int(os.environ.get("VERIF_RUNS", "6000"))
-    n_sweep = 40 if tier == "quick" else 0
+    n_quick = args.runs or int(os.environ.get("VERIF_RUNS", "9000"))
+    n_sweep = 56 if tier == "quick" else 0
     profile = None
     agg = Agg()
     harness_problems = []
